@@ -415,6 +415,70 @@ fn boundary_cfgs(rng: &mut Rng, f: &TestFile) -> Vec<ScanCfg> {
     out
 }
 
+/// every configuration of a family on a tiny file (3 + 2 rows, one or two rows per page):
+/// the domain MC_ParquetScan explores on the model, run against the real reader
+fn tiny_exhaustive(t: &mut Shards, thorough: bool, seed: u64) {
+    for (fi, page_rows) in [1usize, 2].into_iter().enumerate() {
+        let layout = Layout {
+            n: 5,
+            rg_rows: 3,
+            page_rows,
+            write_batch: 1,
+            s_page_bytes: None,
+            offset_index: true,
+            v2: fi == 1,
+            dict: fi == 0,
+            stats: 1,
+            compression: 0,
+            writes: vec![(5, false)],
+        };
+        let f = build_file(&layout);
+        assert_eq!(f.rg_rows, vec![3, 2]);
+        let offsets = [None, Some(0), Some(1), Some(3)];
+        let limits = [None, Some(0), Some(1), Some(2)];
+        let preds: [Vec<PredSpec>; 3] = [vec![], vec![PredSpec { kind: 0, p1: 2, p2: 0 }], vec![PredSpec { kind: 2, p1: 5, p2: 0 }, PredSpec { kind: 1, p1: 1, p2: 4 }]];
+        let mut k = 0u64;
+        for selbits in 0..=32u32 {
+            for o in offsets {
+                for l in limits {
+                    for bs in [1usize, 2, 5] {
+                        for policy in [0usize, 1] {
+                            for (pi, pr) in preds.iter().enumerate() {
+                                k += 1;
+                                // the quick tier takes a sixth of the grid, a different one per seed
+                                if !thorough && (k + seed) % 6 != 0 {
+                                    continue;
+                                }
+                                let sel = if selbits == 32 {
+                                    None
+                                } else {
+                                    let bits: Vec<bool> = (0..5).map(|i| ((selbits >> i) & 1) == 1).collect();
+                                    Some(if (k + pi as u64) % 2 == 0 { SelSpec::Mask(bits) } else { SelSpec::Runs(bits.iter().map(|b| (1usize, !*b)).collect()) })
+                                };
+                                let c = ScanCfg {
+                                    proj: if k % 4 == 0 { vec![0, 4, 6] } else { vec![0, 2] },
+                                    proj_style: 0,
+                                    rgs: None,
+                                    sel,
+                                    preds: pr.clone(),
+                                    offset: o,
+                                    limit: l,
+                                    bs,
+                                    policy: Some(policy),
+                                    page_index: k % 3 != 1,
+                                    cache: None,
+                                };
+                                scan(t, &f, &c);
+                            }
+                        }
+                    }
+                }
+            }
+            t.next_episode();
+        }
+    }
+}
+
 fn main() {
     let args = Args::parse();
     vcore::quiet_panics();
@@ -422,7 +486,7 @@ fn main() {
     let shards = 14;
 
     let mut t = Shards::create(&args.out, "rowsel", shards);
-    let rounds = args.scale(500, 12000);
+    let rounds = args.scale(380, 6000);
     for i in 0..rounds {
         let max = if i % 5 == 0 { 90 } else { 24 };
         selection_api(&mut rng, &mut t, max);
@@ -431,8 +495,8 @@ fn main() {
     let n1 = t.finish();
 
     let mut t = Shards::create(&args.out, "scan", shards);
-    let files = args.scale(28, 420);
-    let per_file = args.scale(26, 60);
+    let files = args.scale(28, 150);
+    let per_file = args.scale(26, 50);
     let max_rows = args.scale(110, 200);
     for _ in 0..files {
         let layout = random_layout(&mut rng, max_rows);
@@ -447,5 +511,9 @@ fn main() {
         t.next_episode();
     }
     let n2 = t.finish();
-    println!("DRIVER c06 rowsel_events={n1} scan_events={n2}");
+
+    let mut t = Shards::create(&args.out, "tiny", shards);
+    tiny_exhaustive(&mut t, args.thorough(), args.seed);
+    let n3 = t.finish();
+    println!("DRIVER c06 rowsel_events={n1} scan_events={n2} tiny_scan_events={n3}");
 }
